@@ -627,6 +627,10 @@ fn indent(amount: usize) -> String {
 
 fn newline_if_body(core: &Core, ind: usize) -> String {
     match core {
+        // a block of comments only has no statement: Python wants one
+        Core::Block { statements } if statements.is_empty() => {
+            format!("\n{}pass\n", indent(ind + 1))
+        }
         Core::Block { .. } => format!("\n{}", to_py(core, ind + 1)),
         _ => format!("\n{}{}", indent(ind + 1), to_py(core, ind + 1)),
     }
